@@ -60,6 +60,129 @@ def tz_idiom(node, b):
     return False
 
 
+def loop_paths(body, b, i, acc):
+    """Path summary of a bit-scan loop body made of plain / augmented assignments to names and if/else: for every path
+    the final values of (i, b, acc) as terms over the values at the loop head (``i0``, ``b0``, ``acc0``, ``TZ`` = number of
+    trailing zero bits of b0) and the branch decisions taken, each reduced to "bit 0 of b0 set / clear".  None when a
+    statement or a test falls outside that fragment."""
+    out = []
+
+    def term(node, env):
+        if isinstance(node, ast.Name):
+            return env.get(node.id, ('var', node.id))
+        if isinstance(node, ast.Constant) and isinstance(node.value, int) and not isinstance(node.value, bool):
+            return ('const', node.value)
+        if isinstance(node, ast.Subscript) and isinstance(node.value, ast.Name):
+            return ('item', node.value.id, term(node.slice, env))
+        if tz_idiom(node, b) and env.get(b) == ('var', 'b0'):
+            return ('TZ',)
+        if isinstance(node, ast.BinOp) and type(node.op) in (ast.Add, ast.RShift, ast.BitAnd):
+            l, r = term(node.left, env), term(node.right, env)
+            if l is None or r is None:
+                return None
+            if isinstance(node.op, ast.Add) and l[0] == 'const' and r[0] == 'const':
+                return ('const', l[1] + r[1])
+            return ({ast.Add: '+', ast.RShift: '>>', ast.BitAnd: '&'}[type(node.op)], l, r)
+        return None
+
+    def decide(test, env):
+        """True / False when the test is decided by the path so far, 'set' / 'clear' pattern otherwise -> (bit0 polarity) or None."""
+        inner, neg = strip_not(test)
+        t = term(inner, env) if not isinstance(inner, ast.Compare) else None
+        if isinstance(inner, ast.Compare) and len(inner.ops) == 1 and isinstance(inner.ops[0], (ast.Eq, ast.NotEq)) and const(inner.comparators[0], 'x') == 0:
+            t = term(inner.left, env)
+            neg = neg != isinstance(inner.ops[0], ast.Eq)
+        if t == ('TZ',):                       # truthy TZ <=> bit 0 clear
+            return 'clear' if not neg else 'set'
+        if t in (('&', ('var', 'b0'), ('const', 1)), ('&', ('const', 1), ('var', 'b0'))):
+            return 'set' if not neg else 'clear'
+        if t is not None and t[0] == 'const':
+            return bool(t[1]) != neg
+        return None
+
+    def run(block, env, bit0):
+        for k, st in enumerate(block):
+            rest = block[k + 1:]
+            if isinstance(st, ast.Pass):
+                continue
+            if isinstance(st, ast.Assign) and len(st.targets) == 1 and isinstance(st.targets[0], ast.Name):
+                v = term(st.value, env)
+                if v is None:
+                    return False
+                env = dict(env, **{st.targets[0].id: v})
+                continue
+            if isinstance(st, ast.AugAssign) and isinstance(st.target, ast.Name) and type(st.op) in (ast.Add, ast.RShift, ast.BitAnd):
+                v = term(ast.BinOp(left=ast.Name(id=st.target.id, ctx=ast.Load()), op=st.op, right=st.value), env)
+                if v is None:
+                    return False
+                env = dict(env, **{st.target.id: v})
+                continue
+            if isinstance(st, ast.If):
+                d = decide(st.test, env)
+                if d is None:
+                    return False
+                arms = []
+                if d is True or d is False:
+                    arms = [(st.body if d else st.orelse, bit0)]
+                else:
+                    other = 'clear' if d == 'set' else 'set'
+                    for pol, arm in ((d, st.body), (other, st.orelse)):
+                        if bit0 is None or bit0 == pol:
+                            arms.append((arm, pol))
+                return all(run(list(arm) + rest, env, pol) for arm, pol in arms)
+            return False
+        out.append((bit0, env.get(i), env.get(b), env.get(acc)))
+        return True
+
+    ok = run(list(body), {i: ('var', 'i0'), b: ('var', 'b0'), acc: ('var', 'acc0')}, None)
+    return out if ok else None
+
+
+def decide_loop_by_paths(R, func, loop, label, b, i, acc, coll):
+    """Decide the loop body from its path summary: on the paths where bit 0 of the scanned value is set the accumulator is
+    intersected with family[position] and both counter and value advance by one; on the others the accumulator is
+    untouched and both advance by the same amount, one or the number of trailing zeros."""
+    rule = 'BITSCAN'
+    paths = loop_paths(loop.body, b, i, acc)
+    if paths is None:
+        return False
+    i0, b0, a0 = ('var', 'i0'), ('var', 'b0'), ('var', 'acc0')
+    one, tz = ('const', 1), ('TZ',)
+    fam = ('item', coll, i0)
+    problems = []
+    seen = set()
+    for bit0, vi, vb, va in paths:
+        pols = ['set', 'clear'] if bit0 is None else [bit0]
+        for pol in pols:
+            seen.add(pol)
+            steps = [one] if pol == 'set' else [one, tz]
+            if not any(vi == ('+', i0, k) and vb == ('>>', b0, k) for k in steps):
+                problems.append(f'bit 0 {pol}: counter -> {fmt_term(vi)}, scanned value -> {fmt_term(vb)}')
+            want_acc = [('&', a0, fam), ('&', fam, a0)] if pol == 'set' else [a0]
+            if va not in want_acc:
+                problems.append(f'bit 0 {pol}: accumulator -> {fmt_term(va)}')
+    if seen != {'set', 'clear'}:
+        problems.append(f'paths cover only bit 0 {sorted(seen)}')
+    R.decided(not problems, rule, func, loop, f'{label}: per-path effect of one iteration (bit 0 set: acc &= family[i], advance 1; clear: advance 1 or the trailing zeros)',
+              f'set: {acc} & {coll}[i], i + 1, {b} >> 1;  clear: {acc}, i + k, {b} >> k (k = 1 or trailing zeros)', '; '.join(problems),
+              extra={'paths': len(paths)})
+    return True
+
+
+def fmt_term(t):
+    if t is None:
+        return '?'
+    if t[0] == 'var':
+        return {'i0': 'i', 'b0': 'b', 'acc0': 'acc'}.get(t[1], t[1])
+    if t[0] == 'const':
+        return str(t[1])
+    if t[0] == 'TZ':
+        return 'tz(b)'
+    if t[0] == 'item':
+        return f'{t[1]}[{fmt_term(t[2])}]'
+    return f'({fmt_term(t[1])} {t[0]} {fmt_term(t[2])})'
+
+
 def check_loop(R, func, loop, seq_before, label):
     """Bit-scan discipline of one ``while b:`` loop.  Returns dict(b, i, acc, coll) or None."""
     rule = 'BITSCAN'
@@ -105,7 +228,7 @@ def check_loop(R, func, loop, seq_before, label):
             R.bad(rule, func, loop, f'{label}: counter advances every iteration', f'{i} += shift', 'counter never advances')
         elif not shs:
             R.bad(rule, func, loop, f'{label}: scanned value shifted every iteration', f'{b} >>= shift', 'scanned value never shifted')
-        else:
+        elif not decide_loop_by_paths(R, func, loop, label, b, i, acc, coll):
             R.unknown(rule, func, loop, f'{label}: advance statements', 'not exactly one unconditional "i += s" and "b >>= s"')
         return dict(b=b, i=i, acc=acc, coll=coll)
     inc, sh = incs[0], shs[0]
@@ -136,7 +259,8 @@ def check_loop(R, func, loop, seq_before, label):
                 f'{s} = ({b} & -{b}).bit_length() - 1', src(defs[0].value) if defs else 'no definition')
         gi = [x for x in body if isinstance(x, ast.If)]
         if len(gi) != 1 or gi[0].orelse:
-            R.unknown(rule, func, loop, f'{label}: bit-0 branch', f'{len(gi)} branches')
+            if not decide_loop_by_paths(R, func, loop, label, b, i, acc, coll):
+                R.unknown(rule, func, loop, f'{label}: bit-0 branch', f'{len(gi)} branches')
             return dict(b=b, i=i, acc=acc, coll=coll)
         g = gi[0]
         t, neg = strip_not(g.test)
@@ -173,7 +297,7 @@ def closure_rules(model, R):
                 glob[s.targets[0].id] = (c[2], 'S' if c[0] == self_ else 'T')
     FAMILY = {other: 'T', self_: 'S'}   # family[i] yields values of that class
     results = {}
-    R.floor('BITSCAN', 40)
+    R.floor('BITSCAN', 20)
     for name in ('prime', 'double', 'doubleprime'):
         f = pw.nested.get(name)
         if f is None:
